@@ -1,0 +1,17 @@
+//go:build verif
+
+package table
+
+import "sync/atomic"
+
+// Verification hook, compiled only with the build tag "verif": a mask applied
+// to the destination hash key so that a test harness can force distinct
+// prefixes into one collision chain. Zero (the default) leaves keys alone.
+var verifTableKeyMask atomic.Uint64
+
+func verifTableKey(k addrPrefixKey) addrPrefixKey {
+	if m := verifTableKeyMask.Load(); m != 0 {
+		return k & addrPrefixKey(m)
+	}
+	return k
+}
